@@ -25,9 +25,9 @@ func init() {
 		Assumptions: []string{"reading D4: nil-like = untyped nil and nil pointers of the 14 struct types; a property change replaces a set value by a different set value"},
 		Bound: func(tier string) string {
 			if tier == "thorough" {
-				return "reflexivity over levels 0,1,2,saturated and depth 2 (all shapes); change pairs on all 13 object structs x all shapes; ~90k ordered pairs for the soundness clause; lists of 8..130 members (mixed, id-less only, IRIs) for reflexivity; long-list, tag-only and extra-entry changes; ids differing only inside an IPv6 literal, in the port after one, in a trailing slash of a query value; instants differing by 1 ns / 250 ms"
+				return "reflexivity over levels 0,1,2,saturated and depth 2 (all shapes); change pairs on all 13 object structs x all shapes; ~90k ordered pairs for the soundness clause; lists of 8..130 members (mixed, id-less only, IRIs) for reflexivity; long-list, tag-only and extra-entry changes; ids differing only inside an IPv6 literal, in the port after one, in a trailing slash of a query value; instants differing by 1 ns / 250 ms; families added after round 5: DESIGN.md 8.11"
 			}
-			return "reflexivity over levels 0,1,saturated and depth 2 (q shapes); nil matrix; change pairs on all 13 object structs x all shapes; all ordered pairs of the level-0 values and bare lists for the soundness clause; lists of 8..130 members (mixed, id-less only, IRIs) for reflexivity; long-list, tag-only and extra-entry changes; ids differing only inside an IPv6 literal, in the port after one, in a trailing slash of a query value; instants differing by 1 ns / 250 ms"
+			return "reflexivity over levels 0,1,saturated and depth 2 (q shapes); nil matrix; change pairs on all 13 object structs x all shapes; all ordered pairs of the level-0 values and bare lists for the soundness clause; lists of 8..130 members (mixed, id-less only, IRIs) for reflexivity; long-list, tag-only and extra-entry changes; ids differing only inside an IPv6 literal, in the port after one, in a trailing slash of a query value; instants differing by 1 ns / 250 ms; families added after round 5: DESIGN.md 8.11"
 		},
 		DeadlineQuick: 6 * time.Minute,
 		Run:           c09Run,
